@@ -17,8 +17,8 @@ import (
 )
 
 func init() {
-	register(&Rule{ID: "R-host-call", Floor: 8, Run: ruleHostCall,
-		Doc: "C16: (1) the exported VM methods that take a FunctionInvocation and start a core (SpawnSync, SpawnAsync) are siblings: everything they do before starting the core — return-type presence, arity check, per-argument DeepCast, argument reversal — must be statement-for-statement identical, otherwise one entry point accepts or orders arguments differently from the other; (2) no VM entry point may write through its FunctionInvocation parameter (in particular the argument reversal must fill a fresh slice): the host keeps and reuses the invocation, an in-place reversal flips the caller's argument order on every second call; (3) HandleTermination must read a return value from the operand stack for exactly those return-type kinds for which compiled code leaves a value, cross-checked against the compiler's own `leave/drop` condition for expression statements: skipping a kind loses the function's result, reading one that is absent indexes an empty stack."})
+	register(&Rule{ID: "R-host-call", Floor: 12, Run: ruleHostCall,
+		Doc: "C16: (1) the exported VM methods that take a FunctionInvocation and start a core (SpawnSync, SpawnAsync) are siblings: everything they do before starting the core — return-type presence, arity check, per-argument DeepCast, argument reversal — must be statement-for-statement identical, otherwise one entry point accepts or orders arguments differently from the other; (2) no VM entry point may write through its FunctionInvocation parameter (in particular the argument reversal must fill a fresh slice): the host keeps and reuses the invocation, an in-place reversal flips the caller's argument order on every second call; (3) HandleTermination must read a return value from the operand stack for exactly those return-type kinds for which compiled code leaves a value, cross-checked against the compiler's own `leave/drop` condition for expression statements: skipping a kind loses the function's result, reading one that is absent indexes an empty stack; (4) (rules_r4rta_waitres.go) every consumer of the interrupt that VM.Wait returns — a caller of Wait (or of a wrapper returning its interrupt), or a function that is handed the interrupt as a parameter (HandleTermination) — is evaluated on SSA under the assumption `interrupt != nil`: every return that stays reachable must return a value built from the interrupt (or the path panics). Any additional conjunct or earlier return that lets a non-nil interrupt fall through to the success-shaped result makes the host see `Exception == nil` for a run that Wait reported as terminated (Wait returns the first interrupt of ANY core)."})
 }
 
 func hcStmtString(fset *token.FileSet, s ast.Stmt) string {
@@ -225,6 +225,8 @@ func ruleHostCall(c *Ctx) []Obligation {
 	}
 	// (3) HandleTermination kinds
 	obs = append(obs, hcTerminationKinds(c)...)
+	// (4) the interrupt returned by VM.Wait reaches the host (rules_r4rta_waitres.go)
+	obs = append(obs, r4aWaitConsumers(c)...)
 	return obs
 }
 
@@ -458,6 +460,10 @@ func hcCompilerLeaves(c *Ctx, a *dmAnalysis, kindNames []string, kindVals map[st
 		fn   *ssa.Function
 		call ssa.Instruction
 		ops  map[ssa.Value]bool
+		// guarded emit helper (`insertIf(kind != K, drop, span)`): the emission is
+		// the use of the helper's instruction parameter inside the helper
+		helper    *ssa.Function
+		helperArg *ssa.Parameter
 	}
 	var sites []site
 	for _, fn := range a.funcs {
@@ -480,7 +486,11 @@ func hcCompilerLeaves(c *Ctx, a *dmAnalysis, kindNames []string, kindVals map[st
 					continue
 				}
 				if ops := hcKindCondOperands(b); len(ops) > 0 {
-					sites = append(sites, site{fn, in, ops})
+					sites = append(sites, site{fn: fn, call: in, ops: ops})
+				} else if hs, ok := hcGuardedEmitHelper(call); ok {
+					// the drop instruction is built unconditionally and handed, together with a
+					// boolean decided by the kind, to a helper that emits it only when the boolean holds
+					sites = append(sites, site{fn: fn, call: hs.use, ops: hs.ops, helper: hs.helper, helperArg: hs.param})
 				} else if len(fn.Blocks) == 1 && fn.Object() != nil && !fn.Object().Exported() {
 					// a straight-line emit helper (`func (c *Compiler) drop(span) { c.insert(… Opcode_Drop …) }`):
 					// its call sites are the emission sites
@@ -489,7 +499,7 @@ func hcCompilerLeaves(c *Ctx, a *dmAnalysis, kindNames []string, kindVals map[st
 							for _, cin := range cb.Instrs {
 								if cc, ok := cin.(*ssa.Call); ok && cc.Common().StaticCallee() == fn {
 									if ops := hcKindCondOperands(cb); len(ops) > 0 {
-										sites = append(sites, site{caller, cin, ops})
+										sites = append(sites, site{fn: caller, call: cin, ops: ops})
 									}
 								}
 							}
@@ -508,6 +518,21 @@ func hcCompilerLeaves(c *Ctx, a *dmAnalysis, kindNames []string, kindVals map[st
 	var pos token.Pos
 	for _, name := range kindNames {
 		ev := &hcKindEval{a: a, K: kindVals[name], isKindSrc: func(v ssa.Value) bool { return s.ops[v] }, hit: func(in ssa.Instruction) bool { return in == s.call }}
+		if s.helper != nil {
+			ev.descend = func(f *ssa.Function) bool { return f == s.helper }
+			ev.hit = func(in ssa.Instruction) bool {
+				ci, ok := in.(ssa.CallInstruction)
+				if !ok || in.Parent() != s.helper {
+					return false
+				}
+				for _, arg := range ci.Common().Args {
+					if hcStrip(arg) == ssa.Value(s.helperArg) {
+						return true
+					}
+				}
+				return false
+			}
+		}
 		r := ev.run(s.fn, hcBinding{}, 0)
 		leaves[name] = r.hit
 		if !r.hit && r.prunePos.IsValid() && !pos.IsValid() {
@@ -518,6 +543,65 @@ func hcCompilerLeaves(c *Ctx, a *dmAnalysis, kindNames []string, kindVals map[st
 		pos = s.call.Pos()
 	}
 	return leaves, pos, true
+}
+
+type hcGuardedEmit struct {
+	use    ssa.Instruction // the call of the helper
+	helper *ssa.Function
+	param  *ssa.Parameter // the helper's parameter that receives the instruction
+	ops    map[ssa.Value]bool
+}
+
+// hcGuardedEmitHelper: the value built by call (the drop instruction) is an
+// argument of a call of a module function that also receives a boolean decided
+// by a type-kind comparison.
+func hcGuardedEmitHelper(call *ssa.Call) (hcGuardedEmit, bool) {
+	refs := call.Referrers()
+	if refs == nil {
+		return hcGuardedEmit{}, false
+	}
+	for _, r := range *refs {
+		var use *ssa.Call
+		var val ssa.Value = call
+		switch x := r.(type) {
+		case *ssa.Call:
+			use = x
+		case *ssa.MakeInterface:
+			// the instruction is passed as an interface value
+			if xr := x.Referrers(); xr != nil {
+				for _, r2 := range *xr {
+					if c2, ok := r2.(*ssa.Call); ok {
+						use, val = c2, x
+					}
+				}
+			}
+		}
+		if use == nil {
+			continue
+		}
+		callee := use.Common().StaticCallee()
+		if callee == nil || len(callee.Blocks) < 2 || !dmInModule(callee) {
+			continue
+		}
+		ops := map[ssa.Value]bool{}
+		var param *ssa.Parameter
+		for i, p := range callee.Params {
+			arg := dmArgFor(use.Common(), callee, i)
+			if arg == nil {
+				continue
+			}
+			if arg == val {
+				param = p
+			}
+			if bt, ok := p.Type().Underlying().(*types.Basic); ok && bt.Kind() == types.Bool {
+				hcKindOperandsOf(arg, 0, ops)
+			}
+		}
+		if param != nil && len(ops) > 0 {
+			return hcGuardedEmit{use: use, helper: callee, param: param, ops: ops}, true
+		}
+	}
+	return hcGuardedEmit{}, false
 }
 
 func hcKeys(m map[string]bool) string {
